@@ -169,25 +169,17 @@ example : ∃ d', normWfList inlEx dEx = .ok d' ∧ normWfList inlEx d' = .ok d'
 
 /-! ### transitions of an accepted definition are the transitions written -/
 
-/-- "the same definition (tasks, transitions, …)": for every on-clause form except the guarded
-    single dict, the specification's `get_next()` targets are exactly the targets written. -/
-theorem nextOf_written_partial (c : OnClause) (h : c.isGuardedSingle = false) :
-    c.nextOf = c.written := by
-  cases c <;> simp_all [OnClause.nextOf, OnClause.written, OnClause.isGuardedSingle]
+/-- "the same definition (tasks, transitions, …)": for every on-clause form the schema accepts, the
+    specification's `get_next()` targets are exactly the targets written.  (Was `_partial` with the
+    guarded single dict excluded and a `_full_fails` witness until repo fix PENDING-08; the witness
+    `on-success: {t1: <% $.x %>}` is now the regression corpus/C14/26-*.json.) -/
+theorem nextOf_written (c : OnClause) : c.nextOf = c.written := by
+  cases c <;> simp [OnClause.nextOf, OnClause.written]
 
-/-- non-vacuity: a list with a guarded and a plain entry, and the advanced form with a guarded
-    single `next`, meet the hypothesis and keep their targets. -/
-example : (OnClause.list [⟨"a", true⟩, ⟨"b", false⟩]).isGuardedSingle = false ∧
+/-- the former counter-witness now keeps its transition. -/
+example : (OnClause.single { target := "t1", guarded := true }).nextOf = ["t1"] ∧
     (OnClause.list [⟨"a", true⟩, ⟨"b", false⟩]).nextOf = ["a", "b"] ∧
     (OnClause.advSingle ⟨"a", true⟩).nextOf = ["a"] := by decide
-
-/-- the unrestricted statement is false of the current code: `on-success: {t1: <% $.x %>}` is
-    accepted by the schema (TASK_WITH_EXPRESSION) and yields no transition.  Replayed on the real
-    parser by the `graph` stream (known finding `accepted-transition-lost`). -/
-theorem nextOf_written_full_fails : ¬ (∀ c : OnClause, c.nextOf = c.written) := by
-  intro h
-  have := h (.single { target := "t1", guarded := true })
-  simp [OnClause.nextOf, OnClause.written] at this
 
 /-! ### "validation accepts" implies the graph is well formed (the hypothesis C01 needs) -/
 
